@@ -365,6 +365,10 @@ func checkConn(sc connScenario, r *connResult) []connVerdict {
 					add("C01", "outcome-is-own", "C01/wrong-outcome/"+mode, fmt.Sprintf("call %d: completed with %s although the response sent for it was %s", k, errClass, respKind[k]))
 				}
 			}
+		case !c.written && strings.HasPrefix(errClass, "other:") && !c.failEnc:
+			// C07: the request of a call whose arguments encode never reached the wire and the call
+			// failed with an error nobody scripted: the header could not be encoded
+			add("C07", "large-header-is-encoded", "C07/request-not-encoded/"+sc.Hdr, fmt.Sprintf("call %d (%s): no request frame was written, the call failed with %s", k, c.form, errClass))
 		case errClass == "nil" || strings.HasPrefix(errClass, "text:"):
 			add("C01", "no-phantom-completion", "C01/phantom-completion/"+mode, fmt.Sprintf("call %d completed with %s although no response had been sent for it", k, errClass))
 			if len(cancelIdx) > 0 {
@@ -549,6 +553,8 @@ func connCorpus() []connScenario {
 		mk("close-with-calls", "go 1 32 8 0 0", "call 2 32 8 0 0", "ping 3 0 0 0 0", "close", "go 4 32 8 0 0", "call 5 32 8 0 0", "close", "probe")
 		mk("close-while-write-held", "go 1 32 8 1 0", "close", "wret 1 ok", "go 2 32 8 0 0", "probe")
 		mk("late-calls-after-eof", "go 1 32 8 0 0", "eof", "go 2 32 8 0 0", "call 3 32 8 0 0", "ping 4 0 0 0 0", "rt 5 32 8 0 0", "ctx 6 32 8 0 0 0", "probe")
+		// headers larger than the pooled write buffer (64 KiB by default)
+		mk("header-larger-than-the-write-buffer", "go 1 65480 8 0 0", "call 2 70000 8 0 0", "go 3 32 70000 0 0", "rt 4 131072 8 0 0", "resp 1 ok", "resp 2 ok", "resp 3 ok", "resp 4 ok", "go 5 32 8 0 0", "resp 5 ok", "probe", "eof")
 		// encode failure
 		mk("encode-failure", "go 1 32 8 0 0", "encfail go 2", "encfail call 3", "resp 1 ok", "probe", "eof")
 		// context
